@@ -374,9 +374,11 @@ def run_check(prop, tier, seed):
 
 def confirm_and_minimise(overlay, mod, prop, clause, r, v, replay_dir, tier):
     plan = None
+    replanned = False
     if isinstance(v[2], dict):
         # an engine that ran several variants of one plan names the failing variant
         plan = v[2].pop("_replan", None)
+        replanned = plan is not None
     if plan is None:
         plan = r.get("plan")
     if plan is None:
@@ -385,8 +387,15 @@ def confirm_and_minimise(overlay, mod, prop, clause, r, v, replay_dir, tier):
     try:
         res = w.run_plan(plan)
         same = any(x[0] == prop and x[1] == clause for x in res.get("violations", []))
-        if not same or res.get("digest") != r.get("digest"):
-            return None, {"first": r.get("digest"), "second": res.get("digest"), "same_clause": same}
+        first = r.get("digest")
+        if replanned:
+            # the recorded digest belongs to the whole sweep; determinism of the named
+            # variant is established by running it a second time
+            first = res.get("digest")
+            res = w.run_plan(plan)
+            same = same and any(x[0] == prop and x[1] == clause for x in res.get("violations", []))
+        if not same or res.get("digest") != first:
+            return None, {"first": first, "second": res.get("digest"), "same_clause": same}
         m = Minimiser(w, prop, clause, budget=int(os.environ.get("VERIF_MIN_BUDGET", "200")))
         small = m.minimise(plan, mod)
         final = w.run_plan(small)
